@@ -186,6 +186,14 @@ def run_case(case, ctx):
             st.count("pair_coeff_evaluations")
             if not same_tuple(tuple(got), tuple(exp)) or not all(math.isfinite(v) for v in got):
                 ctx.fail("pair coefficients of %s: %s, UFF gives %s" % (t, got, exp), witness={"type": t})
+            # a caller that converts the returned values where they are (units, scaling) must not change what the next call returns
+            if isinstance(got, list):
+                got[0] *= 4.184
+                got.append(12.5)
+                again = ru.pair_coeffs(t)
+                st.count("calls_repeated_after_the_result_was_edited")
+                if not same_tuple(tuple(again), tuple(exp)):
+                    ctx.fail("pair coefficients of %s asked again after the first result was edited in place: %s, UFF gives %s" % (t, again, exp), witness={"type": t})
         ctx.nontrivial(["paircoeffs"])
         return
     if kind in ("triples_random", "triples_all"):
